@@ -213,7 +213,7 @@ pub fn solve_ivp_py<'py>(
     let result = solve_ivp(&python_ivp, t0, tf, &y0_vec, opts);
 
     match result {
-        Ok(sol) => build_result(py, sol, events.is_some(), is_constant_jac),
+        Ok(sol) => build_result(py, sol, events.is_some(), is_constant_jac, y0_vec.len()),
         Err(e) => Err(pyo3::exceptions::PyRuntimeError::new_err(format!(
             "Solver failed: {:?}",
             e
@@ -348,10 +348,11 @@ fn build_result<'py>(
     sol: crate::solve::Solution,
     has_events: bool,
     is_constant_jac: bool,
+    n_states: usize,
 ) -> PyResult<Bound<'py, PyAny>> {
-    // Transpose y from (time, state) to (state, time) for SciPy compatibility
+    // Transpose y from (time, state) to (state, time) for SciPy compatibility;
+    // the state dimension comes from y0 so that an empty selection still has shape (n, 0)
     let n_steps = sol.y.len();
-    let n_states = if n_steps > 0 { sol.y[0].len() } else { 0 };
 
     let mut y_transposed = vec![0.0; n_steps * n_states];
     for (i, step) in sol.y.iter().enumerate() {
